@@ -10,7 +10,7 @@ PROP = {
             "one evaluation = one type whose rendering is not truncated; distinct = FNV of the printed annotation; non-trivial = type AST has >= 3 nodes; "
             "renderings containing the truncation marker `...` outside string literals and the multi-line expanded member view of a top-level class/enum are skipped and counted (skipped:*)",
     "min_nontrivial": {"quick": 30000, "thorough": 500000},
-    "max_secs": {"quick": 60, "thorough": 900},
+    "max_secs": {"quick": 600, "thorough": 1500},
     "require_clauses": ["a:structural-roundtrip", "b:rerender-equal", "rendered", "skipped:truncated", "family:string-literal", "family:array-of-union", "family:record"],
     "assumptions": COMMON_ASSUME + [
         "'same type' = equal canonical forms of the two LuaType values (union members as a set, record fields by key, annotation literals and inferred literals identified)",
